@@ -196,11 +196,9 @@ class FlipEnumParallel(ADEVPrimitive):
         (p_primal,) = Dual.tree_primal(dual_tree)
         (p_tangent,) = Dual.tree_tangent(dual_tree)
         sub_keys = jax.random.split(key, 2)
-        ret_primals, ret_tangents = jax.vmap(kdual)(
-            sub_keys,
-            (jnp.array([True, False]),),
-            (jnp.zeros_like(jnp.array([True, False]))),
-        )
+        values = jnp.array([True, False])
+        ret_dual = jax.vmap(kdual)(sub_keys, Dual(values, jnp.zeros_like(values)))
+        (ret_primals,), (ret_tangents,) = Dual.tree_unzip(ret_dual)
 
         def _inner(p, ret):
             return jnp.sum(jnp.array([p, 1 - p]) * ret)
@@ -234,9 +232,8 @@ class CategoricalEnumParallel(ADEVPrimitive):
         (probs_tangent,) = Dual.tree_tangent(dual_tree)
         idxs = jnp.arange(len(probs_primal))
         sub_keys = jax.random.split(key, len(probs_primal))
-        ret_primals, ret_tangents = jax.vmap(kdual)(
-            sub_keys, (idxs,), (jnp.zeros_like(idxs),)
-        )
+        ret_dual = jax.vmap(kdual)(sub_keys, Dual(idxs, jnp.zeros_like(idxs)))
+        (ret_primals,), (ret_tangents,) = Dual.tree_unzip(ret_dual)
 
         def _inner(probs, primals):
             return jnp.sum(jax.nn.softmax(probs) * primals)
